@@ -15,10 +15,16 @@ CLAIMS = {
         "note": "Assumed: NumPy assignment semantics as modelled in symnp._setitem (basic + open-mesh integer arrays with last-write-wins, boolean masks, broadcasting of the value to the selection shape), deepcopy of arrays. List indices are taken duplicate-free (read-back is only well defined then). Array right-hand sides for label *slices* are covered with scalar values only.",
         "technique": TECH,
     },
+    "C07": {
+        "category": "proof",
+        "text": "reindex_axis is proved against the locate_many contract (itself proved for both searchsorted sides with an explicit four-lemma argument over the sorted rank): the result's axis is exactly the new labels (order and repeats kept); every slice at a label that exists is the operand's slice at that label; missing labels are NaN-filled and integer data is widened to float if and only if something is filled; raise_error raises IndexError iff a label is missing; method='left'/'right' takes the slice of the first label >= / > the requested one in sorted order, or of the largest label; other axes equal, metadata copied, operand untouched. take_axis (positions incl. negative and repeated, other axes deep-copied) proved separately. Ranks 1-2, float / string / int labels, float / int data; all sizes, labels and data symbolic.",
+        "note": "Assumed: NumPy contracts for argsort (permutation with explicit inverse), searchsorted(sorter=), take(mode=clip/raise), boolean-mask assignment, deepcopy. Labels unique and never NaN. reindex_like (a loop of reindex_axis over shared dimensions) is not separately under contract yet. Values given as ndarray or Axis; Python lists go through np.asarray (modelled).",
+        "technique": TECH,
+    },
     "C02": {
         "category": "proof",
         "text": "locate_slice, _locate_slice_strict (inlined), locate_one and the slice branch of AbstractAxis.loc are proved, for every axis length (0 included), every strictly monotonic numeric axis in both directions, all steps in {None,1,2,3,-1,-2}, every combination of present/absent bounds with arbitrary real values, and for unique string labels, to return a slice that visits exactly the inclusive bounding box / the run between the two labels, in travel order, never wrapped around. Unbounded in length, labels and bounds; discharged by z3 per path.",
-        "note": "Assumed: NumPy's searchsorted / argsort / where / boolean-index contracts (dverif/symnp.py), mathematical integers, reals for floats, unique labels without NaN. Position slices (.ix) and the N-d combination are carried by C01's _get_indices contract. The non-monotonic numeric case reaches the strict branch (proved through LocateSlice strict-f cases).",
+        "note": "Assumed: NumPy's searchsorted / argsort / where / boolean-index contracts (dverif/symnp.py), mathematical integers, reals for floats, unique labels without NaN. Position slices (.ix) and the N-d combination are carried by C01's _get_indices contract. The non-monotonic numeric case reaches the strict branch (proved through LocateSlice strict-f cases). Solver stability: every obligation has discharged in every run observed, but about one run in four one decreasing-axis bounding-box obligation (out of ~3170) needs the fallback solver variant and >10 s; the check prints it as FRAGILE. searchsorted on a reversed buffer is stated re-indexed onto buffer positions (validated against NumPy 2.5.3 by brute force, lengths 0-4).",
         "technique": TECH,
     },
 }
